@@ -82,7 +82,17 @@ def register(K):
         out.append((bad, None))
         f = unpickle_fn()
         st.bump_alloc()
-        out.append((st, V("val", f(args[0].t))))
+        a = args[0]
+        if a.k == "bytes":
+            out.append((st, V("val", f(a.t))))
+        elif a.k == "val":
+            # a buffer of unknown kind (bytes, bytearray, memoryview ...): the stock unpickler runs on its content
+            from pyvc.sorts import Bytes
+            content = z3.If(Val.is_Y(a.t), Val.y(a.t), z3.Function("BUFFER_CONTENT", Val, Bytes)(a.t))
+            out.append((st, V("val", f(content))))
+        else:
+            from pyvc.eval import Unsupported
+            raise Unsupported(f"{eng.where(node)}: pickle.loads of {a!r}")
         return out
 
     @K.spec("UNPICKLE")
